@@ -282,3 +282,6 @@ def run(ctx):
     from .common import import_obligations
     # the operations applied are the group's (C16 R1-R3)
     import_obligations(ctx, 'C16', 'R4', only_rules={'R3', 'R1', 'R2'}, floor=20)
+    # a cloned site is the same site (C09.R3, OccupiedSite)
+    import_obligations(ctx, 'C09', 'R5', only_rules={'R3'}, floor=1, only_instances=lambda k: 'OccupiedSite' in k)
+
